@@ -45,6 +45,8 @@ ASSUMPTIONS = [
 
 TEMPERATURE = 0.5
 STUB_EXPM = "oqupy.system.expm -> F(argument): fresh symbolic (Hermitian) matrix, argument recorded"
+STUB_EIG = ("np.linalg.eigh in oqupy.system (only if the implementation diagonalises H) -> (w, V) of H = V diag(w) V^+ with a concrete "
+            "rational unitary V; np.exp there -> uninterpreted per argument; nothing replaced on the real stack")
 STUB_SVD = "oqupy.backends.tempo_backend.svd -> exact non-truncating factorisation with a fixed complex gauge: M = (M X^-1).1.X resp. X.1.(X^-1 M), X = 1 + iN"
 
 
@@ -178,56 +180,212 @@ def _eq_cond(inp, a, b):
     return SB(z3.Not(z3.Or(*ds))) if ds else True
 
 
-def _gibbs(inp, n_steps, H, G, bath):
-    """real GibbsTempo on a real System / Bath / PowerLawSD; only expm is replaced.
-    Stub F: F(A0) = G for A0 = -H/(2 T n), and F(A0^T) = G^T (expm commutes with
-    transposition), so that the oracle (F(A0).F(A0))^n does not depend on which of the two
-    the code asks for; any other argument is reported by the 'expm argument' obligation."""
-    calls = []
-    A0 = _scale(H, -1.0 / (2.0 * TEMPERATURE * n_steps))
+class EigRoute(Exception):
+    """the implementation obtains the propagator by diagonalising H (np.linalg.eig*) instead
+    of scipy expm: the generic-G parametrisation (H and G independent symbols, linked only by
+    the expm stub) cannot serve it; the case is re-run with the eigen-compatible one"""
 
-    def expm(arg):
-        calls.append(arg)
-        if _valid_eq(arg, A0):
-            return G
-        if _valid_eq(arg, A0.T):
-            return G.T
-        return G
-    with env.patched({"oqupy.system.expm": expm}):
-        system = oqupy.System(H)
+
+class _RaisingLinalg:
+    def __getattr__(self, name):
+        if name in ("eigh", "eig", "eigvalsh", "eigvals"):
+            def f(*a, **k):
+                raise EigRoute(name)
+            return f
+        return getattr(np.linalg, name)
+
+
+class ExpTable:
+    """exp on symbolic REAL arguments: one positive-agnostic real constant per argument,
+    arguments identified by equality that is valid for all values (solver check)"""
+
+    def __init__(self):
+        self.items = []
+
+    def get(self, arg):
+        arg = S.of(arg)
+        if arg.is_concrete() or not sym._isz(arg.im):
+            return sym.sym_exp(arg)
+        for a0, g in self.items:
+            if _valid_eq(np.array([arg], dtype=object), np.array([a0], dtype=object)):
+                return g
+        g = S(z3.Real("expE_%d" % len(self.items)))
+        self.items.append((arg, g))
+        return g
+
+    def exp(self, x):
+        if isinstance(x, np.ndarray):
+            if x.dtype != object:
+                return np.exp(x)
+            out = np.empty(x.shape, dtype=object)
+            for idx in np.ndindex(*x.shape):
+                out[idx] = self.get(x[idx])
+            return out
+        if isinstance(x, S):
+            return self.get(x)
+        return np.exp(x)
+
+
+_V2 = {0: (3, 4, 5), 1: (5, 12, 13)}
+
+
+def _unitary(inp, d, cplx, vsel=0):
+    """concrete unitary with rational entries (exact in every mode): [[p, iq], [iq, p]]/r
+    (real orthogonal [[p, -q], [q, p]]/r if not cplx), embedded in rows/cols (0, d-1)"""
+    p, q, r = _V2[vsel]
+    V = np.zeros((d, d), dtype=complex)
+    for k in range(1, d - 1):
+        V[k, k] = 1.0
+    lo, hi = 0, d - 1
+    V[lo, lo] = V[hi, hi] = p / r
+    if cplx:
+        V[lo, hi] = V[hi, lo] = 1j * q / r
+    else:
+        V[lo, hi], V[hi, lo] = -q / r, q / r
+    if inp.mode == "real":
+        return V
+    out = np.empty((d, d), dtype=object)
+    from fractions import Fraction
+    for i in range(d):
+        for j in range(d):
+            z = V[i, j]
+            re = Fraction(round(z.real * r), r)
+            im = Fraction(round(z.imag * r), r)
+            out[i, j] = S(re, im)
+    return out
+
+
+def _vdv(V, diag):
+    """V diag(diag) V^dagger"""
+    Vd = _dagger(V)
+    n = V.shape[0]
+    M = np.array([[V[i, k] * diag[k] for k in range(n)] for i in range(n)], dtype=V.dtype if V.dtype != object else object)
+    return M.dot(Vd)
+
+
+class Pair:
+    """(H, G) for one GibbsTempo object and the stubs that go with it.
+
+    generic: H and G independent symbolic Hermitian matrices; expm stub F(A0) = G,
+        F(A0^T) = G^T for A0 = -H/(2Tn); np.linalg.eig* in oqupy.system raise EigRoute.
+    eigen:   H = V diag(w) V^+ and G = V diag(g) V^+ with a CONCRETE rational unitary V,
+        symbolic ascending spectrum w and g_k = exp(-w_k/(2Tn)) (uninterpreted per argument
+        in the symbolic run, evaluated in the concrete modes).  Serves both routes: expm
+        stub as above; np.linalg.eigh(H) -> (w, V), eigh(H^T) -> (w, conj V); np.exp in
+        oqupy.system -> the same table.  On the real stack NOTHING is replaced."""
+
+    def __init__(self, inp, n_steps, tag="", cplx=True, d=2, eigen=False, vsel=0, table=None, rotate=None, base=None):
+        self.inp, self.n, self.eigen, self.d = inp, n_steps, eigen, d
+        scale = -1.0 / (2.0 * TEMPERATURE * n_steps)
+        if not eigen:
+            self.H = herm(inp, "H" + tag, cplx, genuinely_complex=cplx, d=d)
+            self.G = herm(inp, "G" + tag, cplx, genuinely_complex=cplx, d=d)
+        else:
+            self.table = table if table is not None else ExpTable()
+            if base is None:
+                w = [inp.real("w%s0" % tag)]
+                for k in range(1, d):
+                    dk = inp.real("w%s%d" % (tag, k), lo=0, nonzero=True)     # strictly ascending spectrum
+                    w.append(w[-1] + dk)
+                self.w = w
+                self.V = _unitary(inp, d, cplx, vsel)
+            else:                                   # rotated copy: same spectrum, V' = R V
+                self.w = base.w
+                self.V = rotate.dot(base.V)
+            if inp.mode == "sym":
+                g = [self.table.get(S.of(x) * S.of(scale)) for x in self.w]
+            elif inp.mode == "frac":
+                g = [sym.sym_exp(S.of(x) * S.of(scale)) for x in self.w]
+            else:
+                g = [float(np.exp(x * scale)) for x in self.w]
+            self.g = g
+            self.H = _vdv(self.V, self.w)
+            self.G = _vdv(self.V, g)
+        self.A0 = _scale(self.H, scale)
+        self.calls = []
+
+    # -- stand-ins ---------------------------------------------------------------
+    def expm(self, arg):
+        self.calls.append(arg)
+        if _valid_eq(arg, self.A0):
+            return self.G
+        if _valid_eq(arg, self.A0.T):
+            return self.G.T
+        return self.G
+
+    def eigh(self, M, UPLO="L"):
+        M = np.asarray(M)
+        wv = np.array(self.w, dtype=object)
+        if _valid_eq(M, self.H):
+            return wv, np.array(self.V)
+        if _valid_eq(M, self.H.T):
+            return wv, np.array([[S.of(x).conjugate_() for x in row] for row in self.V], dtype=object)
+        raise AssertionError("harness: np.linalg.eigh called with a matrix that is neither H nor H^T")
+
+    def patches(self):
+        if self.eigen and self.inp.mode == "real":
+            return {}
+        if not self.eigen:
+            return {"oqupy.system.expm": self.expm, "oqupy.system.np": env.NpProxy({"linalg": _RaisingLinalg()})}
+        proxy_linalg = type("LinalgStub", (), {"eigh": staticmethod(self.eigh),
+                                                "__getattr__": lambda s, name: getattr(np.linalg, name)})()
+        return {"oqupy.system.expm": self.expm,
+                "oqupy.system.np": env.NpProxy({"linalg": proxy_linalg, "exp": self.table.exp})}
+
+
+def _gibbs(inp, n_steps, pair, bath):
+    """real GibbsTempo on a real System / Bath / PowerLawSD with the stand-ins of `pair`"""
+    with env.patched(pair.patches()):
+        system = oqupy.System(pair.H)
         g = tempo_mod.GibbsTempo(system, bath, tempo_mod.GibbsParameters(n_steps, 1.0e-14))
-    return g, calls
+    return g, pair.calls
 
 
-class Orient(Case):
+class GibbsCase(Case):
+    """cases that build a real GibbsTempo: run the body with the generic parametrisation;
+    if the implementation diagonalises H, re-run it with the eigen-compatible one
+    (`eigen=True` cases use the latter from the start, on either implementation)"""
+    eigen = False
+
+    def run(self, inp):
+        if self.eigen:
+            return self.body(inp, True)
+        try:
+            return self.body(inp, False)
+        except EigRoute:
+            return self.body(inp, True)
+
+
+class Orient(GibbsCase):
     """H1: final state == (G.G)^n with the orientation of exp(-H/T)"""
     functions = ("GibbsTempo.__init__", "GibbsTempo._prepare_backend", "GibbsTempo.compute", "GibbsTempo.get_state",
                  "System.get_unitary_propagators", "TIBaseBackend.initialise", "compute_step", "readout", "_influence_tensor",
                  "_contract", "_truncate_left", "_truncate_right")
-    stubs = (STUB_EXPM, STUB_SVD)
+    stubs = (STUB_EXPM, STUB_SVD, STUB_EIG)
     env = {"extra": SYM_EXTRA}
     timeout_s = 300
 
-    def __init__(self, n_steps, cplx=True, d=2):
-        self.n, self.cplx, self.d = n_steps, cplx, d
-        self.id = "H1/%s_n%d%s" % ("orient" if cplx else "real", n_steps, "" if d == 2 else "_d%d" % d)
-        self.bounds = {"d": d, "n_steps": n_steps, "coupling": 0, "hamiltonian": "complex Hermitian" if cplx else "real symmetric"}
+    def __init__(self, n_steps, cplx=True, d=2, eigen=False, vsel=0):
+        self.n, self.cplx, self.d, self.eigen, self.vsel = n_steps, cplx, d, eigen, vsel
+        self.id = "H1/%s%s_n%d%s%s" % ("orient" if cplx else "real", "_eig" if eigen else "", n_steps, "" if d == 2 else "_d%d" % d,
+                                       "" if vsel == 0 else "_v%d" % vsel)
+        self.bounds = {"d": d, "n_steps": n_steps, "coupling": 0, "hamiltonian": "complex Hermitian" if cplx else "real symmetric",
+                       "parametrisation": "H = V diag(w) V^+, concrete rational unitary V, symbolic spectrum" if eigen
+                       else "generic symbolic (eigen-compatible one if the implementation diagonalises H)"}
         self.bath = make_bath(d=d)
 
-    def run(self, inp):
+    def body(self, inp, eigen):
         n = self.n
-        H = herm(inp, "H", self.cplx, genuinely_complex=True, d=self.d)
-        G = herm(inp, "G", self.cplx, genuinely_complex=True, d=self.d)
-        g, calls = _gibbs(inp, n, H, G, self.bath)
+        pair = Pair(inp, n, cplx=self.cplx, d=self.d, eigen=eigen, vsel=self.vsel)
+        g, calls = _gibbs(inp, n, pair, self.bath)
         dyn = g.compute(progress_type="silent")
-        E = mpow(G @ G, n, inp)                   # F(-H/(2Tn))^(2n)  (= exp(-H/T) by the group law)
+        E = mpow(pair.G @ pair.G, n, inp)         # F(-H/(2Tn))^(2n)  (= exp(-H/T) by the group law)
         last = dyn.states[-1]
-        obs = [Ob.eq("final state has the orientation of exp(-H/T)", last, E, key="state",
-                     info="zero coupling: GibbsTempo returns the transpose of (G.G)^n, G = expm(-H/(2Tn))")]
-        return obs
+        return [Ob.eq("final state has the orientation of exp(-H/T)", last, E, key="state",
+                      info="zero coupling: GibbsTempo returns the transpose of exp(-H/T) (propagator G = exp(-H/(2Tn)))")]
 
 
-class Wiring(Case):
+class Wiring(GibbsCase):
     """H1: what is handed to expm / to the back-end (holds irrespective of the orientation defect)"""
     functions = Orient.functions
     stubs = (STUB_EXPM, STUB_SVD)
@@ -239,13 +397,13 @@ class Wiring(Case):
         self.bounds = {"d": 2, "n_steps": n_steps, "coupling": 0}
         self.bath = make_bath()
 
-    def run(self, inp):
+    def body(self, inp, eigen):
         n = self.n
-        H = herm(inp, "H", genuinely_complex=True)
-        G = herm(inp, "G", genuinely_complex=True)
-        g, calls = _gibbs(inp, n, H, G, self.bath)
+        pair = Pair(inp, n, eigen=eigen)
+        H, G = pair.H, pair.G
+        g, calls = _gibbs(inp, n, pair, self.bath)
         want = _scale(H, -1.0 / (2.0 * TEMPERATURE * n))
-        obs = [Ob.holds("expm called for the two half steps", len(calls) == 2)]
+        obs = []
         for i, a in enumerate(calls[:2]):
             c1, c2 = _eq_cond(inp, a, want), _eq_cond(inp, a, want.T)
             obs.append(Ob.holds("expm argument %d is -H/(2 T n) (or its transpose, given back transposed)" % i,
@@ -262,7 +420,7 @@ class Wiring(Case):
         return obs
 
 
-class Repeat(Case):
+class Repeat(GibbsCase):
     """H2: compute(); compute() leaves get_state() unchanged"""
     functions = Orient.functions
     stubs = (STUB_EXPM, STUB_SVD)
@@ -275,11 +433,9 @@ class Repeat(Case):
         self.bounds = {"d": 2, "n_steps": n_steps, "coupling": 0, "compute_calls": 2}
         self.bath = make_bath()
 
-    def run(self, inp):
+    def body(self, inp, eigen):
         n = self.n
-        H = herm(inp, "H", False)
-        G = herm(inp, "G", False)
-        g, _ = _gibbs(inp, n, H, G, self.bath)
+        g, _ = _gibbs(inp, n, Pair(inp, n, cplx=False, eigen=eigen), self.bath)
         g.compute(progress_type="silent")
         first = np.array(g.get_dynamics().states[-1], dtype=object if inp.mode != "real" else complex)
         nstates = len(g.get_dynamics().states)
@@ -291,7 +447,7 @@ class Repeat(Case):
                          info="second GibbsTempo.compute() appends n_steps-2 further states")]
 
 
-class Normalised(Case):
+class Normalised(GibbsCase):
     """H3: get_state() == last recorded state / its trace, for an ARBITRARY last state with
     non-zero trace (the last state is planted into the Dynamics object of a really
     constructed and computed GibbsTempo); Hermitian if that state is Hermitian"""
@@ -305,9 +461,9 @@ class Normalised(Case):
         self.bounds = {"d": 2, "last_state": kind}
         self.bath = make_bath()
 
-    def run(self, inp):
+    def body(self, inp, eigen):
         from oqupy.dynamics import Dynamics
-        g, _ = _gibbs(inp, 2, herm(inp, "H", False), herm(inp, "G", False), self.bath)
+        g, _ = _gibbs(inp, 2, Pair(inp, 2, cplx=False, eigen=eigen), self.bath)
         g.compute(progress_type="silent")
         M = herm(inp, "M") if self.kind == "hermitian" else inp.arr("M", (2, 2), cplx=True)
         tr = M[0, 0] + M[1, 1]
@@ -328,7 +484,7 @@ class Normalised(Case):
 # -- H3: coefficients and Hermiticity at arbitrary coupling --------------------------
 
 
-class Coefficients(Case):
+class Coefficients(GibbsCase):
     """H3: the coefficient callable handed to the back-end returns real numbers and asks for
     the documented cells (upper triangle at 0, square at k*dt) of the Matsubara correlation
     function; eta_function is uninterpreted (complex valued)."""
@@ -342,18 +498,17 @@ class Coefficients(Case):
         self.bounds = {"n_steps": n_steps}
         self.bath = make_bath(0.1)
 
-    def run(self, inp):
+    def body(self, inp, eigen):
         n = self.n
         seen = []
         eta = _eta_stub(inp, seen)
-        H = herm(inp, "H")
-        G = herm(inp, "G")
+        pair = Pair(inp, n, eigen=eigen)
         if True:
             import oqupy.bath_correlations as bc
             old = bc.CustomSD.eta_function
             bc.CustomSD.eta_function = eta
             try:
-                g, _ = _gibbs(inp, n, H, G, self.bath)
+                g, _ = _gibbs(inp, n, pair, self.bath)
                 coeff = g._backend_instance._coefficients
                 dt = 1.0 / (TEMPERATURE * n)
                 obs = []
@@ -623,7 +778,7 @@ def _all_sb(conds):
     return out
 
 
-class ZRotation(Case):
+class ZRotation(GibbsCase):
     """H1 at ARBITRARY coupling: the exact reduced thermal state is covariant under rotations
     about the coupling axis, rho(R H R^+) = R rho(H) R^+ for R = diag(u, conj u)/|u| (the
     coupling operator is diagonal, hence invariant).  Real GibbsTempo with a coupled bath,
@@ -637,43 +792,63 @@ class ZRotation(Case):
     env = {"extra": dict(SYM_EXTRA, **{"oqupy.backends.tempo_backend.exp": _real_exp})}
     timeout_s = 600
 
-    def __init__(self, n_steps, coupling=None):
-        self.n = n_steps
-        self.id = "H1/zrot_n%d%s" % (n_steps, "" if coupling is None else "_" + _tag(coupling))
-        self.bounds = {"d": 2, "n_steps": n_steps, "coupling": "symbolic (eta uninterpreted)"}
+    def __init__(self, n_steps, coupling=None, eigen=False):
+        self.n, self.eigen = n_steps, eigen
+        self.id = "H1/zrot%s_n%d%s" % ("_eig" if eigen else "", n_steps, "" if coupling is None else "_" + _tag(coupling))
+        self.bounds = {"d": 2, "n_steps": n_steps, "coupling": "symbolic (eta uninterpreted)",
+                       "parametrisation": "concrete V and rotation u = (3+4i)/5, symbolic spectrum" if eigen else "generic G, symbolic rotation"}
         self.bath = make_bath(0.1, coupling=coupling)
 
-    def run(self, inp):
+    def body(self, inp, eigen):
         import oqupy.bath_correlations as bc
         n = self.n
-        H = herm(inp, "H", genuinely_complex=True)
-        K = herm(inp, "K", genuinely_complex=True)      # stands for R H R^+ (only G, G' enter the identity)
-        G = herm(inp, "G", genuinely_complex=True)
-        t = inp.real("t")
         one = inp.one()
-        if inp.mode == "real":
-            u = complex(1.0, t)
-            uc = u.conjugate()
+        if not eigen:
+            p1 = Pair(inp, n, eigen=False)
+            p2 = Pair(inp, n, tag="K", eigen=False)     # stands for R H R^+ (only G, G' enter the identity)
+            G = p1.G
+            t = inp.real("t")
+            if inp.mode == "real":
+                u = complex(1.0, t)
+                uc = u.conjugate()
+            else:
+                u = S(one.re, t.re)
+                uc = u.conjugate_()
+            nu = u * uc
+            power = 2 * n - 1
         else:
-            u = S(one.re, t.re)
-            uc = u.conjugate_()
-        nu = u * uc
+            # eigen-compatible: concrete rotation u = (3 + 4i)/5, H' = R H R^+, V' = R V
+            p1 = Pair(inp, n, eigen=True, vsel=1)
+            if inp.mode == "real":
+                u, uc = complex(0.6, 0.8), complex(0.6, -0.8)
+                R = np.diag([u, uc])
+            else:
+                from fractions import Fraction
+                u, uc = S(Fraction(3, 5), Fraction(4, 5)), S(Fraction(3, 5), Fraction(-4, 5))
+                R = sym.obj_zeros((2, 2))
+                R[0, 0], R[1, 1] = u, uc
+            p2 = Pair(inp, n, tag="K", eigen=True, table=p1.table, rotate=R, base=p1)
+            G = p1.G
+            nu = one
+            power = 0
         Gp = np.array(G, dtype=G.dtype)
         Gp[0, 0], Gp[1, 1] = nu * G[0, 0], nu * G[1, 1]
         Gp[0, 1] = u * u * G[0, 1]
         Gp[1, 0] = uc * uc * G[1, 0]
+        if not eigen:
+            p2.G = Gp                                  # G' = nu R G R^+
         eta = _eta_stub(inp, [])
         old = bc.CustomSD.eta_function
         bc.CustomSD.eta_function = eta
         try:
-            g1, _ = _gibbs(inp, n, H, G, self.bath)
-            g2, _ = _gibbs(inp, n, K, Gp, self.bath)
+            g1, _ = _gibbs(inp, n, p1, self.bath)
+            g2, _ = _gibbs(inp, n, p2, self.bath)
             s = g1.compute(progress_type="silent").states[-1]
             sp = g2.compute(progress_type="silent").states[-1]
         finally:
             bc.CustomSD.eta_function = old
         f = one
-        for _ in range(2 * n - 1):
+        for _ in range(power):
             f = f * nu
         want = np.array(s, dtype=s.dtype)
         want[0, 0], want[1, 1] = f * nu * s[0, 0], f * nu * s[1, 1]
@@ -722,13 +897,14 @@ def _dagger(m):
 
 
 def cases(tier):
-    cs = [Orient(2), Orient(3), Orient(4), Orient(2, cplx=False), Orient(3, cplx=False), Wiring(2), Wiring(3), Repeat(3),
+    cs = [Orient(2), Orient(3), Orient(4), Orient(2, eigen=True), Orient(3, eigen=True), Orient(4, eigen=True, vsel=1),
+          Orient(3, cplx=False, eigen=True), Orient(2, d=3, eigen=True), ZRotation(3, eigen=True), ZRotation(4, (1, 0), eigen=True), Orient(2, cplx=False), Orient(3, cplx=False), Wiring(2), Wiring(3), Repeat(3),
           Orient(2, d=3), Orient(2, cplx=False, d=3), Normalised("generic"), Normalised("hermitian"), Coefficients(3), HermitianCoupled(2), HermitianCoupled(3), HermitianCoupled(4), ZRotation(2), ZRotation(3), ZRotation(4),
           HermitianCoupled(2, (1, 0)), HermitianCoupled(3, (1, 0)), HermitianCoupled(2, (1, 0, -2)), ZRotation(2, (1, 0)),
           ZRotation(3, (1, 0)), TruncRule(2, 0.125), TruncRule(3, 1e-6), UniqueLocal(3, False), UniqueLocal(3, True), Degenerate((1, 1, 0), 2), Degenerate((0.5, -0.5, 0.5), 3),
           Degenerate((1, 1, 0), 3)]
     if tier == "thorough":
-        cs += [Orient(5), Orient(4, cplx=False), Wiring(4), Repeat(4), Repeat(2),
+        cs += [Orient(5), Orient(5, eigen=True), Orient(3, d=3, eigen=True, vsel=1), ZRotation(4, eigen=True), Orient(4, cplx=False), Wiring(4), Repeat(4), Repeat(2),
                Orient(3, d=3), Orient(3, cplx=False, d=3), Orient(4, cplx=False, d=3),
                HermitianCoupled(4, (1, 0)), HermitianCoupled(3, (1, 0, -2)), ZRotation(4, (1, 0)),
                TruncRule(3, 0.125), TruncRule(2, 1e-6), TruncRule(4, 0.5), UniqueLocal(4, False), UniqueLocal(4, True), Degenerate((0, 1, 1), 3), Degenerate((0.5, 0.5, -0.5, -0.5), 2),
